@@ -50,6 +50,26 @@ func main() {
 			w.WriteByte('\n')
 			w.Flush()
 		}
+	case "replay-worker":
+		// stdin: schedules (ndjson); argv: first index
+		from := atoi(os.Args[2])
+		sc := bufio.NewScanner(os.Stdin)
+		sc.Buffer(make([]byte, 1<<20), 1<<26)
+		w := bufio.NewWriterSize(os.Stdout, 1<<20)
+		i := from
+		for sc.Scan() {
+			var sch schedule
+			if err := json.Unmarshal(sc.Bytes(), &sch); err != nil {
+				fmt.Fprintln(os.Stderr, "bad schedule:", err)
+				os.Exit(3)
+			}
+			r := runReplay(i, sch)
+			b, _ := json.Marshal(r)
+			w.Write(b)
+			w.WriteByte('\n')
+			w.Flush()
+			i++
+		}
 	case "run":
 		n, par := atoi(os.Args[2]), atoi(os.Args[4])
 		base := os.Args[3]
